@@ -79,8 +79,8 @@ theorem C08Mixed_bounded_dropped_equals_reported_plus_pending (m : Mix) (s0 : BS
   have hz : ∀ t ∈ s.ths, isU m t = true → t.fail = 0 ∧ t.discarded = 0 ∧ t.blockedCalls = 0 := by
     intro t ht hu
     have := hscope
-    simp only [uRefused, List.any_eq_false] at this
-    have h1 := this t ht
+    simp only [uRefused, Bool.or_eq_false_iff, List.any_eq_false] at this
+    have h1 := this.1 t ht
     simp only [hu, Bool.true_and, Bool.or_eq_true, bne_iff_ne, ne_eq, not_or, Decidable.not_not] at h1
     exact ⟨h1.1.1, h1.1.2, h1.2⟩
   have hb : ∀ c ∈ ctrsB m s, c.2.2 = 0 := by
